@@ -64,6 +64,7 @@ def judge_doc(ctx, m, proto, vals, r: rt.Result, ep_name, what, extra, data) -> 
                     if sig:
                         break
     if sig:
+        sig += (extra or {}).get("trigger", "")
         ip = rt.save_input(ctx, "%s_%s_%08x.in" % (proto.name, ep_name, abs(hash(data)) & 0xFFFFFFFF), data)
         ctx.violation(sig, "%s: %s" % (what, msg), dict(extra, model_dir=m.root, protocol=proto.name, input_path=ip,
                                                           values=repr(vals)[:2500], output_head=r.out[:600], stderr=r.stderr[-1200:]))
@@ -107,7 +108,7 @@ def run_model(ctx, key, pkg, nsets, flavors):
             data = c.encode_stream(proto, sch, vals)
             ctx.case(("vals", key, proto.name, k, len(data)))
             tag = "corpus %s/%s set %d" % (key, proto.name, k)
-            ex = {"key": key, "set": k}
+            ex = {"key": key, "set": k, "trigger": rt.ndjson_tag_collision_trigger(m, proto)}
             for fl in flavors:
                 ep = rt.CppEndpoint(m, fl)
                 # writer side: binary in, NDJSON out
@@ -196,19 +197,20 @@ def run_matrix(ctx, quick):
                 vals[1] = [[i, (None if i % 3 == 1 else ((0, i) if i % 3 == 0 else (1, "s%d" % i)))] for i in range(7)]
                 vals[2] = [[i, (None if i % 2 else (0, "t%d" % i))] for i in range(6)]
             data = c.encode_stream(proto, sch, vals)
+            mx = {"matrix": True, "trigger": rt.ndjson_tag_collision_trigger(m, proto)}
             ctx.case(("matrix", proto.name, k))
             tag = "union-matrix %s set %d" % (proto.name, k)
             r = ep.copy(proto.name, "bin", "ndjson", data)
             ctx.ev(); ctx.count("matrix.bin->ndjson")
-            ok = judge_doc(ctx, m, proto, vals, r, ep.name, tag + " bin->ndjson", {"matrix": True}, data)
+            ok = judge_doc(ctx, m, proto, vals, r, ep.name, tag + " bin->ndjson", mx, data)
             ref_text = ("\n".join(c.ndjson_lines(proto, sch, vals)) + "\n").encode()
             r2 = ep.copy(proto.name, "ndjson", "bin", ref_text)
             ctx.ev(); ctx.count("matrix.refndjson->bin")
-            rt.judge(ctx, m, proto, vals, ref_text, r2, ep.name, "bin", tag + " refndjson->bin", {"matrix": True})
+            rt.judge(ctx, m, proto, vals, ref_text, r2, ep.name, "bin", tag + " refndjson->bin", mx)
             if r.rc == 0:
                 r3 = ep.copy(proto.name, "ndjson", "bin", r.out)
                 ctx.ev(); ctx.count("matrix.gen-ndjson->bin")
-                rt.judge(ctx, m, proto, vals, r.out, r3, ep.name, "bin", tag + " gen-ndjson->bin (round trip through generated code)", {"matrix": True})
+                rt.judge(ctx, m, proto, vals, r.out, r3, ep.name, "bin", tag + " gen-ndjson->bin (round trip through generated code)", mx)
 
     pmap(one, pkg.protocols())
     ctx.sample({"matrix_protocols": len(pkg.protocols()), "unions": sum(len(p.steps) for p in pkg.protocols())})
